@@ -258,16 +258,16 @@ Proof.
     cbn [app assign_from]. cbv zeta.
     replace (N.max (sh - 1 + 1) 0) with sh by lia. replace (N.max (sh + 1) 0) with (sh + 1) by lia.
     f_equal. f_equal. rewrite assign_from_zeros.
-    destruct (extra c) as [|k]; cbn [app consecutive].
-    + simpl. f_equal. lia.
-    + rewrite consecutive_S. cbn [app]. f_equal. f_equal. f_equal. lia.
+    destruct (extra c) as [|k].
+    + cbn [consecutive seq map app]. f_equal. lia.
+    + rewrite consecutive_S. cbn [app]. repeat (first [lia | f_equal]).
   - rewrite (u16_small (h + 1)) in * by lia. rewrite (u16_small (h + 2)) in * by lia.
     cbn [app assign_from]. cbv zeta.
     replace (N.max (sh - 1 + 1) h) with h by lia. replace (N.max (h + 1) 0) with (h + 1) by lia.
     f_equal. f_equal. rewrite assign_from_zeros.
-    destruct (extra c) as [|k]; cbn [app consecutive].
-    + simpl. f_equal. lia.
-    + rewrite consecutive_S. cbn [app]. f_equal. f_equal. f_equal. lia.
+    destruct (extra c) as [|k].
+    + cbn [consecutive seq map app]. f_equal. lia.
+    + rewrite consecutive_S. cbn [app]. repeat (first [lia | f_equal]).
   - cbn [app assign_from]. cbv zeta.
     replace (N.max (sh - 1 + 1) d) with d by lia. replace (N.max (d + 1) v) with v by lia.
     f_equal. f_equal.
@@ -276,9 +276,9 @@ Proof.
     + cbn [assign_from]. cbv zeta. destruct (cc =? 0) eqn:E.
       * apply N.eqb_eq in E. subst cc. rewrite (u16_small (v + 1)) in * by lia.
         replace (N.max (v + 1) 0) with (v + 1) by lia. f_equal.
-        rewrite assign_from_zeros. f_equal. f_equal. lia.
+        rewrite assign_from_zeros. repeat (first [lia | f_equal]).
       * apply N.eqb_neq in E. replace (N.max (v + 1) cc) with cc by lia. f_equal.
-        rewrite assign_from_zeros. f_equal. f_equal. lia.
+        rewrite assign_from_zeros. repeat (first [lia | f_equal]).
 Qed.
 
 (* characteristic_attribute_handle_by_index *)
@@ -313,6 +313,212 @@ Proof.
   destruct (handle <=? ch_value (select_handles sh c)) eqn:E2; [reflexivity|].
   apply N.leb_gt in E1, E2.
   destruct (extra c) as [|k]; [lia|]. cbn [first_ge].
-  destruct (handle <=? ch_cccd (select_handles sh c)) eqn:E3; [f_equal; lia|].
+  destruct (handle <=? ch_cccd (select_handles sh c)) eqn:E3; [lia|].
   apply N.leb_gt in E3. rewrite first_ge_consecutive by lia. lia.
+Qed.
+
+Lemma char_hlist_last sh c : char_ok sh c -> In (char_end_handle sh c - 1) (char_hlist sh c).
+Proof.
+  intros H. rewrite (char_end_handle_eq sh c H). unfold char_hlist. cbv zeta.
+  destruct (extra c) as [|k].
+  - right. left. lia.
+  - right. right. destruct k as [|k].
+    + left. lia.
+    + right. unfold consecutive. apply in_map_iff. exists k. split; [lia|]. apply in_seq. lia.
+Qed.
+
+(* ------------------------------------------------------------------ the characteristics of a service *)
+Fixpoint chars_hlist (cs : list char_decl) (sh : N) : list N :=
+  match cs with
+  | [] => []
+  | c :: t => char_hlist sh c ++ chars_hlist t (char_end_handle sh c)
+  end.
+
+Lemma chars_hlist_length cs sh : length (chars_hlist cs sh) = N.to_nat (sumN char_nattrs cs).
+Proof.
+  revert sh; induction cs as [|c t IH]; intros sh; cbn [chars_hlist sumN]; [reflexivity|].
+  rewrite app_length, char_hlist_length, IH. lia.
+Qed.
+
+Lemma chars_end_ge cs sh : chars_handles_ok cs sh = true -> sh <= chars_end_handle cs sh.
+Proof.
+  revert sh; induction cs as [|c t IH]; intros sh H; cbn [chars_end_handle]; [lia|].
+  apply chars_handles_ok_cons in H. destruct H as [Hc Ht].
+  specialize (IH _ Ht). pose proof (char_end_handle_gt sh c Hc). lia.
+Qed.
+
+Lemma chars_hlist_bounds cs sh x :
+  chars_handles_ok cs sh = true -> In x (chars_hlist cs sh) -> sh <= x /\ x < chars_end_handle cs sh.
+Proof.
+  revert sh; induction cs as [|c t IH]; intros sh H Hin; cbn [chars_hlist chars_end_handle] in *; [destruct Hin|].
+  apply chars_handles_ok_cons in H. destruct H as [Hc Ht].
+  pose proof (char_end_handle_gt sh c Hc). pose proof (chars_end_ge _ _ Ht).
+  apply in_app_or in Hin. destruct Hin as [Hin|Hin].
+  - pose proof (char_hlist_bounds sh c x Hc Hin). lia.
+  - specialize (IH _ Ht Hin). lia.
+Qed.
+
+Lemma chars_assign cs sh rest :
+  1 <= sh -> chars_handles_ok cs sh = true ->
+  assign_from (sh - 1) (flat_map char_requests cs ++ rest)
+  = chars_hlist cs sh ++ assign_from (chars_end_handle cs sh - 1) rest.
+Proof.
+  revert sh; induction cs as [|c t IH]; intros sh Hsh H; cbn [flat_map chars_hlist chars_end_handle app]; [reflexivity|].
+  apply chars_handles_ok_cons in H. destruct H as [Hc Ht].
+  rewrite <- app_assoc. rewrite (char_assign sh c _ Hsh Hc).
+  pose proof (char_end_handle_gt sh c Hc).
+  rewrite IH by (auto; lia). rewrite app_assoc. reflexivity.
+Qed.
+
+Lemma chars_hbi cs sh si k :
+  chars_handles_ok cs sh = true -> (k < length (chars_hlist cs sh))%nat ->
+  chars_handle_by_index cs sh si (si + N.of_nat k) = nth k (chars_hlist cs sh) 0.
+Proof.
+  revert sh si k; induction cs as [|c t IH]; intros sh si k H Hk; cbn [chars_hlist chars_handle_by_index] in *.
+  - simpl in Hk. lia.
+  - apply chars_handles_ok_cons in H. destruct H as [Hc Ht].
+    pose proof (char_hlist_length sh c) as Hl.
+    destruct (si + N.of_nat k <? si + char_nattrs c) eqn:E.
+    + apply N.ltb_lt in E. rewrite app_nth1 by lia. apply char_hbi; auto. lia.
+    + apply N.ltb_ge in E. rewrite app_nth2 by lia. rewrite app_length in Hk.
+      replace (si + N.of_nat k) with (si + char_nattrs c + N.of_nat (k - length (char_hlist sh c))) by lia.
+      apply IH; auto. lia.
+Qed.
+
+Lemma chars_ibh cs sh si h :
+  chars_handles_ok cs sh = true ->
+  chars_index_by_handle cs sh si h = first_ge (chars_hlist cs sh) h si.
+Proof.
+  revert sh si; induction cs as [|c t IH]; intros sh si H; cbn [chars_hlist chars_index_by_handle]; [reflexivity|].
+  apply chars_handles_ok_cons in H. destruct H as [Hc Ht].
+  destruct (h <? char_end_handle sh c) eqn:E.
+  - apply N.ltb_lt in E. rewrite (char_ibh sh si c h Hc E).
+    symmetry. apply first_ge_app_l. exists (char_end_handle sh c - 1). split; [apply char_hlist_last; auto|lia].
+  - apply N.ltb_ge in E. rewrite first_ge_app.
+    + rewrite char_hlist_length. rewrite IH by auto. f_equal. lia.
+    + intros x Hx. pose proof (char_hlist_bounds sh c x Hc Hx). lia.
+Qed.
+
+(* ------------------------------------------------------------------ the services *)
+Definition no_includes_b (ss : list service_decl) : bool :=
+  forallb (fun s => match s_includes s with [] => true | _ => false end) ss.
+
+Fixpoint svcs_hlist (ss : list service_decl) (sh : N) : list N :=
+  match ss with
+  | [] => []
+  | s :: t => svc_handle sh s :: chars_hlist (s_chars s) (svc_handle sh s + 1) ++ svcs_hlist t (svc_end_handle sh s)
+  end.
+
+Lemma svcs_handles_ok_cons s t sh :
+  svcs_handles_ok (s :: t) sh = true ->
+  sh <= svc_handle sh s /\ svc_handle sh s + 1 < 65536 /\
+  chars_handles_ok (s_chars s) (svc_handle sh s + 1) = true /\
+  svc_end_handle sh s = chars_end_handle (s_chars s) (svc_handle sh s + 1) /\
+  svcs_handles_ok t (svc_end_handle sh s) = true.
+Proof.
+  cbn [svcs_handles_ok]. intros H.
+  apply andb_true_iff in H. destruct H as [H H4].
+  apply andb_true_iff in H. destruct H as [H H3].
+  apply andb_true_iff in H. destruct H as [H1 H2].
+  apply N.leb_le in H1. apply N.ltb_lt in H2.
+  repeat split; auto. unfold svc_end_handle. rewrite u16_small by auto. reflexivity.
+Qed.
+
+Lemma svcs_hlist_length ss sh : length (svcs_hlist ss sh) = N.to_nat (sumN svc_nattrs ss) \/ no_includes_b ss = false.
+Proof.
+  revert sh; induction ss as [|s t IH]; intros sh; cbn [svcs_hlist sumN no_includes_b forallb]; [left; reflexivity|].
+  destruct (s_includes s) eqn:E; [|right; reflexivity]. cbn [andb].
+  destruct (IH (svc_end_handle sh s)) as [IH'|IH']; [left|right; exact IH'].
+  cbn [length]. rewrite app_length, chars_hlist_length, IH'.
+  unfold svc_nattrs, svc_nsattrs, len. rewrite E. cbn [length]. lia.
+Qed.
+
+Lemma svcs_assign ss sh :
+  1 <= sh -> svcs_handles_ok ss sh = true -> no_includes_b ss = true ->
+  assign_from (sh - 1) (flat_map svc_requests ss) = svcs_hlist ss sh.
+Proof.
+  revert sh; induction ss as [|s t IH]; intros sh Hsh H Hn; cbn [flat_map svcs_hlist]; [reflexivity|].
+  apply svcs_handles_ok_cons in H. destruct H as (H1 & H2 & H3 & H4 & H5).
+  cbn [no_includes_b forallb] in Hn. apply andb_true_iff in Hn. destruct Hn as [Hi Hn].
+  unfold svc_requests. destruct (s_includes s) eqn:E; [|discriminate]. cbn [length repeat app].
+  cbn [assign_from]. cbv zeta.
+  assert (Hm : N.max (sh - 1 + 1) (match s_handle s with Some h => h | None => 0 end) = svc_handle sh s).
+  { unfold svc_handle in *. destruct (s_handle s); lia. }
+  rewrite Hm. f_equal.
+  replace (svc_handle sh s) with (svc_handle sh s + 1 - 1) at 1 by lia.
+  rewrite chars_assign by (auto; lia). f_equal.
+  rewrite <- H4. pose proof (chars_end_ge _ _ H3). apply IH; auto. lia.
+Qed.
+
+Lemma svcs_hlist_bounds ss sh x :
+  svcs_handles_ok ss sh = true -> In x (svcs_hlist ss sh) -> sh <= x.
+Proof.
+  revert sh; induction ss as [|s t IH]; intros sh H Hin; cbn [svcs_hlist] in *; [destruct Hin|].
+  apply svcs_handles_ok_cons in H. destruct H as (H1 & H2 & H3 & H4 & H5).
+  pose proof (chars_end_ge _ _ H3).
+  destruct Hin as [<-|Hin]; [lia|]. apply in_app_or in Hin. destruct Hin as [Hin|Hin].
+  - pose proof (chars_hlist_bounds _ _ _ H3 Hin). lia.
+  - specialize (IH _ H5 Hin). lia.
+Qed.
+
+Lemma svcs_hbi ss sh si k :
+  svcs_handles_ok ss sh = true -> no_includes_b ss = true -> (k < length (svcs_hlist ss sh))%nat ->
+  svcs_handle_by_index ss sh si (si + N.of_nat k) = nth k (svcs_hlist ss sh) 0.
+Proof.
+  revert sh si k; induction ss as [|s t IH]; intros sh si k H Hn Hk; cbn [svcs_hlist svcs_handle_by_index] in *.
+  - simpl in Hk. lia.
+  - apply svcs_handles_ok_cons in H. destruct H as (H1 & H2 & H3 & H4 & H5).
+    cbn [no_includes_b forallb] in Hn. apply andb_true_iff in Hn. destruct Hn as [Hi Hn].
+    assert (Hna : svc_nattrs s = 1 + sumN char_nattrs (s_chars s)).
+    { unfold svc_nattrs, svc_nsattrs, len. destruct (s_includes s); [cbn [length]; lia|discriminate]. }
+    pose proof (chars_hlist_length (s_chars s) (svc_handle sh s + 1)) as Hl.
+    rewrite (u16_small (svc_handle sh s + 1)) by auto.
+    destruct (si + N.of_nat k <? si + svc_nattrs s) eqn:E.
+    + apply N.ltb_lt in E. destruct k as [|k].
+      * replace (si + N.of_nat 0 =? si) with true by (symmetry; apply N.eqb_eq; lia). reflexivity.
+      * replace (si + N.of_nat (S k) =? si) with false by (symmetry; apply N.eqb_neq; lia).
+        cbn [nth]. rewrite app_nth1 by lia.
+        replace (si + N.of_nat (S k)) with (si + 1 + N.of_nat k) by lia.
+        apply chars_hbi; auto. lia.
+    + apply N.ltb_ge in E. destruct k as [|k]; [lia|]. cbn [nth length] in *.
+      rewrite app_length in Hk. rewrite app_nth2 by lia.
+      replace (si + N.of_nat (S k)) with (si + svc_nattrs s + N.of_nat (k - length (chars_hlist (s_chars s) (svc_handle sh s + 1)))) by lia.
+      apply IH; auto. lia.
+Qed.
+
+Lemma svcs_fibh ss sh si h :
+  svcs_handles_ok ss sh = true -> no_includes_b ss = true ->
+  svcs_first_index_by_handle ss sh si h = first_ge (svcs_hlist ss sh) h si.
+Proof.
+  revert sh si; induction ss as [|s t IH]; intros sh si H Hn; cbn [svcs_hlist svcs_first_index_by_handle]; [reflexivity|].
+  apply svcs_handles_ok_cons in H. destruct H as (H1 & H2 & H3 & H4 & H5).
+  cbn [no_includes_b forallb] in Hn. apply andb_true_iff in Hn. destruct Hn as [Hi Hn].
+  assert (Hna : svc_nattrs s = 1 + sumN char_nattrs (s_chars s)).
+  { unfold svc_nattrs, svc_nsattrs, len. destruct (s_includes s); [cbn [length]; lia|discriminate]. }
+  pose proof (chars_end_ge _ _ H3) as Hge.
+  rewrite (u16_small (svc_handle sh s + 1)) by auto.
+  cbn [first_ge].
+  destruct (h <? svc_end_handle sh s) eqn:E.
+  - apply N.ltb_lt in E. destruct (h <=? svc_handle sh s) eqn:E2; [reflexivity|].
+    apply N.leb_gt in E2. rewrite chars_ibh by auto.
+    symmetry. apply first_ge_app_l.
+    (* some characteristic handle is >= h: otherwise the end handle would be svc_handle + 1 <= h *)
+    destruct (s_chars s) as [|c cs] eqn:Ec.
+    + cbn [chars_end_handle] in H4. lia.
+    + clear IH. rewrite H4 in E. clear H4 Hna Hge.
+      revert E H3. generalize (svc_handle sh s + 1) as q. generalize (c :: cs) as l. clear.
+      induction l as [|c t IHl]; intros q E H; cbn [chars_end_handle chars_hlist] in *.
+      * exists 0. lia.
+      * apply chars_handles_ok_cons in H. destruct H as [Hc Ht].
+        destruct (h <? char_end_handle q c) eqn:E3.
+        -- apply N.ltb_lt in E3. exists (char_end_handle q c - 1). split; [|lia].
+           apply in_or_app. left. apply char_hlist_last; auto.
+        -- apply N.ltb_ge in E3. destruct t as [|c' t'].
+           ++ cbn [chars_end_handle] in E. lia.
+           ++ destruct (IHl _ E Ht) as [x [Hx1 Hx2]]. exists x. split; auto. apply in_or_app. right. auto.
+  - apply N.ltb_ge in E.
+    assert (Hs : (h <=? svc_handle sh s) = false) by (apply N.leb_gt; lia). rewrite Hs.
+    rewrite first_ge_app.
+    + rewrite chars_hlist_length. rewrite IH by auto. f_equal. lia.
+    + intros x Hx. pose proof (chars_hlist_bounds _ _ _ H3 Hx). lia.
 Qed.
